@@ -566,7 +566,7 @@ func main() {
 	report.Supervise("C05", "fault_enumeration", "R1:node-process-dies",
 		"while lives are recorded / restarted nodes run: the process of a node in that situation ends (it does not come back without manual repair)")
 	r = report.New("C05", "fault_enumeration")
-	modes := []string{"flush", "keep", "keep+snap"}
+	modes := []string{"flush", "keep"}
 	if v := os.Getenv("C05_MODES"); v != "" {
 		modes = strings.Split(v, ",")
 	}
